@@ -192,7 +192,9 @@ func (k *Keeper) SetTaskResultInfo(
 			)
 		}
 		// check parameters
-		if info.BlsSignature == nil {
+		// a present-but-empty signature (explicit zero-length field on the wire) must be rejected too:
+		// it would be stored as nil and leave the task with a result that carries no signature.
+		if len(info.BlsSignature) == 0 {
 			return errorsmod.Wrap(
 				types.ErrParamNotEmptyError,
 				fmt.Sprintf("SetTaskResultInfo: invalid param BlsSignature is not be null (BlsSignature: %s)", info.BlsSignature),
